@@ -18,10 +18,11 @@ Record ops (V : Type) := {
   leb : V -> V -> bool;       (* `<=`; false whenever an operand is NaN *)
   zero : V;
   null : V;                    (* initial accumulator of non-sum reductions *)
-  of_count : Z -> V            (* a count stored into the (ignored) target of count reductions *)
+  of_count : Z -> V;           (* a count stored into the (ignored) target of count reductions *)
+  divc : V -> Z -> V           (* accumulator / count (rolling mean) *)
 }.
 Arguments is_null {V}. Arguments add {V}. Arguments sub {V}. Arguments sq {V}.
-Arguments ltb {V}. Arguments leb {V}. Arguments zero {V}. Arguments null {V}. Arguments of_count {V}.
+Arguments ltb {V}. Arguments leb {V}. Arguments zero {V}. Arguments null {V}. Arguments of_count {V}. Arguments divc {V}.
 
 Record laws {V} (o : ops V) : Prop := {
   add_assoc : forall x y z, add o x (add o y z) = add o (add o x y) z;
@@ -44,7 +45,8 @@ Definition MIN_INT : Z := - 2 ^ 63.
 Definition zops (nullable : bool) (nullv : Z) : ops Z := {|
   is_null := fun x => nullable && (x =? MIN_INT);
   add := Z.add; sub := Z.sub; sq := fun x => x * x; ltb := Z.ltb; leb := Z.leb;
-  zero := 0; null := (if nullable then MIN_INT else nullv); of_count := fun c => c |}.
+  zero := 0; null := (if nullable then MIN_INT else nullv); of_count := fun c => c;
+  divc := fun x c => Z.quot x c |}.
 
 Lemma zops_laws nullable nullv : laws (zops nullable nullv).
 Proof.
@@ -73,7 +75,8 @@ Definition fl_of_Z (z : Z) : fl := FFin (Q2Qc (inject_Z z)).
 Definition fops : ops fl := {|
   is_null := fun x => match x with FNan => true | _ => false end;
   add := fl_add; sub := fl_sub; sq := fl_sq; ltb := fl_ltb; leb := fl_leb;
-  zero := FFin 0%Qc; null := FNan; of_count := fl_of_Z |}.
+  zero := FFin 0%Qc; null := FNan; of_count := fl_of_Z;
+  divc := fun x c => match x with FFin a => FFin (a / Q2Qc (inject_Z c))%Qc | FNan => FNan end |}.
 
 Lemma Qclt_irrefl' (a : Qc) : ~ (a < a)%Qc.
 Proof. intros H. apply Qclt_not_eq in H. congruence. Qed.
